@@ -205,6 +205,8 @@ class MixedChecker:
                     self.fail("learnt-clause-not-entailed", "learnt clause %s is not entailed by the added clauses and the theories" % h["l"])
             elif k == "tconf":
                 self.stats["tconf"] += 1
+                if h.get("nf"):
+                    self.fail("theory-conflict-with-non-false-literal", "%s conflict clause %s contains literals that are not false when it is reported: %s" % (h["th"], h["l"], h["nf"]))
                 ls = [net.plit(x) for x in h["l"]]
                 if self.zcheck(z3.Not(z3.Or([self.zlit(x) for x in ls]))) == z3.sat:
                     self.fail("theory-conflict-not-valid", "%s conflict clause %s is not a consequence" % (h["th"], h["l"]))
